@@ -136,7 +136,7 @@ func checkC11Valid(c c11Case) *ev.Failure {
 		if len(files) == 0 && len(c.P.Root().Decls) > 0 {
 			return ev.Failf("no-output:"+lang, "-gen %s produced no files", tg)
 		}
-		if f := wellFormed(tg, out, files, c); f != nil {
+		if f := wellFormed(tg, out, files, c.Recurse || len(c.P.Root().Includes) == 0); f != nil {
 			f.Msg += "\n" + allTexts(texts)
 			return f
 		}
